@@ -1516,3 +1516,70 @@ def rule_zero_length_is_rest(ctx):
                 ctx.violated("ZEROREST", key, f.where(line), "a length of 0 becomes `%s`, which does not take the current position off: after a partial read the request exceeds what is left" % render(r)[:50])
     ctx.floor("ZEROREST", 3, n, "(translations of a zero read length)")
     return n
+
+
+def rule_maxref_inclusive(ctx):
+    """MAXREFINCL (C12, C20): reference numbers run from 1 to MAX_REF (65535) *inclusive*.  A loop that enumerates the references
+    to find a free one continues while `ref <= MAX_REF`; with `<` the last reference is never examined and Hnewref reports
+    "no reference left" (0) while 65535 is still free."""
+    from .facts import int_name
+    from .rules_loops import loops_of
+    prog = ctx.prog
+    n = 0
+    for f in prog.lib_funcs():
+        if not f.rel.endswith("hdf/src/hfiledd.c"):
+            continue
+        k = 0
+        for lp, st in loops_of(f):
+            if lp[0] != "for" or lp[2] is None:
+                continue
+            for x in walk(lp[2], True):
+                if x[0] == "bin" and x[1] in ("<", "<=") and (int_name(x[3]) == "MAX_REF" or (is_int(x[3]) and int_val(x[3]) == 65535)) and kind(strip(x[2])) == "var":
+                    k += 1
+                    n += 1
+                    key = "MAXREFINCL:%s#%d" % (f.name, k)
+                    line = lp[-3] if isinstance(lp[-3], int) else f.line
+                    if x[1] == "<=":
+                        ctx.holds("MAXREFINCL", key, f.where(line), "the enumeration of references includes MAX_REF", nontrivial=True)
+                    else:
+                        ctx.violated("MAXREFINCL", key, f.where(line), "the enumeration of references stops before MAX_REF: reference 65535 is never examined and is reported as unavailable while it is free")
+    ctx.floor("MAXREFINCL", 1, n, "(enumerations of the reference range)")
+    return n
+
+
+def rule_truncate_only_shrinks(ctx):
+    """TRUNCONLY (C02, C01): Htrunc sets the length in the descriptor without allocating anything, which is sound only when the
+    new length is smaller than the old one.  The update sits under the single comparison `data_len > trunc_len`; a guard that
+    lets any other case through (an `||` arm for appendable elements) lets the descriptor claim bytes that belong to the
+    next element, or that lie beyond the end of the file."""
+    from .codec import ast_walk
+    from .facts import calls_in
+    prog = ctx.prog
+    f = prog.func("Htrunc")
+    if f is None or not f.raw.get("ast"):
+        ctx.unrecognised("TRUNCONLY", "TRUNCONLY:Htrunc", "-", "Htrunc not found")
+        return 0
+    found = []
+
+    def vis(nd, st):
+        if nd[0] == "if" and nd[1] is not None:
+            inner = []
+            ast_walk(nd[2], lambda k, s2: (inner.extend(1 for c in (calls_in(k[1], True) if k[0] in ("s", "if") and k[1] is not None else []) if c[1] == "HTPupdate"), True)[1])
+            if inner and not any(a[0] == "if" and any(c[1] == "HTPupdate" for c in calls_in(a[1], True)) for a in [nd]):
+                found.append(nd)
+        return True
+
+    ast_walk(f.raw["ast"], vis)
+    n = 0
+    for k, nd in enumerate(found[:1], 1):
+        n += 1
+        key = "TRUNCONLY:Htrunc"
+        line = nd[-3] if isinstance(nd[-3], int) else f.line
+        c = strip(nd[1])
+        single = kind(c) == "bin" and c[1] in (">", "<") and not any(x[0] == "bin" and x[1] in ("||", "&&") for x in walk(c, True))
+        if single:
+            ctx.holds("TRUNCONLY", key, f.where(line), "the descriptor's length is lowered only under `%s`" % render(c)[:40], nontrivial=True)
+        else:
+            ctx.violated("TRUNCONLY", key, f.where(line), "the descriptor's length is rewritten under `%s`, which admits more than a shrink: nothing is allocated for a larger length" % render(c)[:70])
+    ctx.floor("TRUNCONLY", 1, n, "(the guard of Htrunc's descriptor update)")
+    return n
